@@ -575,6 +575,8 @@ def check_c18(tier, seed, log=print):
     run.coverage['text_pipeline_predicted'] = TP.tie(cases, caps, P.run_lean)
     import defgen
     run.coverage['structured_definitions'] = defgen.tie(run, seed, 400 if tier == 'quick' else 4000, refmatch=refmatch)
+    import logositems
+    run.coverage['logos_items_predicted'] = logositems.tie(run, seed, 150 if tier == 'quick' else 2500)
     run.coverage.update(dict(evaluations=n, distinct_nontrivial=len(nontriv), permutation_groups=len(groups),
                              rule='all permutations (with and without trailing comma, with and without a positional callback) of every subset of the named arguments, for #[token], #[regex] and skip(...); '
                                   'dependency-respecting permutations of #[logos(...)] items; every permutation must give the verdict, diagnostics, leaves and generated code of the first one; '
